@@ -23,6 +23,9 @@ def obligations(tier):
         o.append(Obl("ranks_" + nm, "C17/ranks.c", "xstream_%s from ANY valid list of 0..3 live streams with symbolic ranks: %s" % (nm, d),
                      defs=["OP=%d" % op], unwind=6, unwindset=SPIN, backend="cadical", encodes=["xstream_" + nm, "xstream_add_xstream_list", "xstream_remove_xstream_list", "xstream_update_max_xstreams", "ABT_xstream_get_num"],
                      bounds="0..3 live streams, ranks any int in [0, INT_MAX)", symbolic="list length, ranks, requested rank, which stream, stale links"))
+    o.append(Obl("xstream_create_ladder", "C17/create_ladder.c", "xstream_create with a failure at a symbolic stage (descriptor allocation, local memory pools, root ULT, root pool, main-scheduler ULT, native thread) or a taken rank, on a list of 1..2 live streams: everything acquired is released exactly once, the rank is returned, get_num and the list are as before, scheduler reusable; success path registers the stream with the smallest unused / requested rank",
+                 unwind=5, cut_loops=["ABTD_spinlock_acquire.0", "ABTD_spinlock_acquire.1"], object_bits=10, backend="cadical", encodes=["xstream_create", "xstream_set_new_rank", "xstream_return_rank", "ABT_xstream_get_num"],
+                 bounds="1..2 live streams, 7 failure positions", symbolic="failing stage, requested rank, existing ranks"))
     return o
 
 MANIFEST_ENTRY = {
